@@ -250,3 +250,26 @@ mutant('c18-interp-pop-empty','C18','ValueList.Fields["pop"]','homescript/interp
 mutant('c18-len-returns-float','C18','ValueString.Fields["len"]#post:typed-result',V+'valueString.go','''		"len": NewValueBuiltinFunction(func(executor Executor, cancelCtx *context.Context, span errors.Span, args ...Value) (*Value, *VmInterrupt) {
 			return NewValueInt(int64(utf8.RuneCountInString(self.Inner))), nil''','''		"len": NewValueBuiltinFunction(func(executor Executor, cancelCtx *context.Context, span errors.Span, args ...Value) (*Value, *VmInterrupt) {
 			return NewValueFloat(float64(utf8.RuneCountInString(self.Inner))), nil''')
+# C19
+O='homescript/optimizer/optimizer.go'
+mutant('c19-drops-diverging-statement','C19','Optimizer.block',O,'''		if warnedUnreachable {
+			continue
+		}
+
+		statements = append(statements, newStatement)''','''		if warnedUnreachable || unreachableSpan != nil {
+			continue
+		}
+
+		statements = append(statements, newStatement)''')
+mutant('c19-drops-on-null-type','C19','Optimizer.block',O,'if unreachableSpan == nil && newStatement.Type().Kind() == ast.NeverTypeKind {','if unreachableSpan == nil && (newStatement.Type().Kind() == ast.NeverTypeKind || newStatement.Type().Kind() == ast.NullTypeKind) {')
+mutant('c19-loses-trailing-expression','C19','Optimizer.block#post:trailing-expression-kept',O,'''	if node.Expression != nil {
+		trailingExpr = o.optExpression(node.Expression)
+''','''	if node.Expression != nil && unreachableSpan == nil {
+		trailingExpr = o.optExpression(node.Expression)
+''')
+mutant('c19-params-shifted','C19','optimizeFn#post:parameters-kept',O,'		newParams.List[idx] = param','		newParams.List[len(node.Parameters.List)-1-idx] = param')
+mutant('c19-functions-skipped','C19','analyzeModule',O,'''		newFn := o.optimizeFn(fn)
+		functionsOut = append(functionsOut, newFn)''','''		newFn := o.optimizeFn(fn)
+		if len(fn.Body.Statements) > 0 || fn.Body.Expression != nil {
+			functionsOut = append(functionsOut, newFn)
+		}''')
